@@ -4,6 +4,9 @@ import Ibx.Model.Addr
   T1 tie: the hand-written address model uses exactly the character classes and limits that the
   regenerated facts (Ibx/Gen/Addr.lean, re-read from pkg/policy/address.go on every run) report.
   If the source changes one of them, these obligations stop checking.
+  The facts are located structurally (harness/cmd/extract/addr2.go, addrEmitTables): the two parsers are found by
+  following the calls of Addressing.ExtractMailbox, the compared quantities by role (len of the parameter, the index of
+  the loop over the parameter, the counter that is incremented and reset) — not by the names of locals or helpers.
 -/
 namespace Ibx.Tie.Addr
 open Ibx.Model.Addr
